@@ -183,9 +183,11 @@ def run_corpus(case):
 
     out = []
     name = case["file"]
-    t = corpus.table(name)
-    if corpus.has_altlocs(t):
-        t = [a for a in t if a["altloc"] in (None, "A")]
+    # single-conformer input (alternate locations reduced to A; of overlapping partial-occupancy copies of whole residues - 488d.pdb - the lower-occupancy
+    # copy is dropped, as the residue-level reader does by design): both readers then hold the same residues
+    from mc.props.c05 import abstract_of
+
+    t = [dict(a) for a in abstract_of(dict(file=name))]
     if "thin" in case:
         res = corpus.residues(t)
         keep = []
@@ -426,7 +428,9 @@ def run_corpus_pdb(case):
 
     out = []
     name = case["file"]
-    t = [dict(a, model=1) for a in corpus.table(name) if a["altloc"] in (None, "A")]
+    from mc.props.c05 import abstract_of
+
+    t = [dict(a, model=1) for a in abstract_of(dict(file=name))]  # single-conformer input, see run_corpus
     for a in t:
         a["altloc"] = None
         for k, d in zip("xyz", case["pdb_shift"]):
